@@ -19,6 +19,13 @@ from collections import namedtuple
 class fake_threading_local():
     pass
 
+
+class NoState():
+    ''' Sent in place of a ``None`` state. The unpickler does not restore a ``None`` state at all, the bookkeeping done when
+        a remote-aware object has been restored (see `RemoteState.recreate_obj_and_patch_setstate`) needs its call though.
+    '''
+
+
 class RemoteState(dict):
     _active_contexts = threading.local()
     #_active_contexts = fake_threading_local
@@ -149,6 +156,9 @@ class RemoteState(dict):
         ret = newobj(*newargs)
         orig_getstate = getattr(type(ret), '__setstate__', None) # None: the class relies on the default unpickling behaviour
         def patched_setstate(obj, state):
+            no_state = state is NoState
+            if no_state:
+                state = None
             if isinstance(state, dict):
                 patched_state = state.copy()
                 patched_state.update(RemoteState.current_patches())
@@ -157,7 +167,9 @@ class RemoteState(dict):
             else:
                 patched_state = state
             del obj.__setstate__
-            if orig_getstate is not None:
+            if no_state:
+                pass # just like the unpickler, which does not call __setstate__ if there is no state
+            elif orig_getstate is not None:
                 assert obj.__setstate__.__func__ is orig_getstate
                 orig_getstate(obj, patched_state)
             else:
